@@ -17,6 +17,10 @@ from prtpy import outputtypes as out, objectives as obj
 from prtpy.binners import Binner
 from typing import Callable, List, Any
 
+def _python_number(value):
+    """ Numpy scalars of a narrow integer type (e.g. np.uint8) silently overflow when they are added up; Python numbers do not. """
+    return value.item() if isinstance(value, np.generic) else value
+
 def partition(
     algorithm: Callable,
     numbins: int,
@@ -79,6 +83,8 @@ def partition(
         item_names = items
         if valueof is None:
             valueof = lambda item: item
+    value_function = valueof
+    valueof = lambda item: _python_number(value_function(item))    # see the comment above on numpy arrays: the same holds for single numpy numbers.
     binner = outputtype.create_binner(valueof)
     bins   = algorithm(binner, numbins, item_names, **kwargs)
     return outputtype.extract_output_from_binsarray(bins)
